@@ -68,7 +68,7 @@ class SortFieldsCustomMiddleware(BlockMiddleware):
                 return len(self._order)
 
         entry.fields = sorted(entry.fields, key=_sort_key)
-        entry.parser_metadata[self.metadata_key()] = self._order
+        entry.parser_metadata[self.metadata_key()] = list(self._order)
         return entry
 
     # docstr-coverage: inherited
